@@ -100,6 +100,7 @@ fn main() {
     let mut cursor = None;
     let mut viollog: Option<String> = None;
     let mut out: Option<String> = None;
+    let mut repo_src: Option<String> = None;
     let mut i = 2;
     while i < args.len() {
         let a = args[i].as_str();
@@ -128,6 +129,7 @@ fn main() {
             "--cursor" => cursor = std::fs::OpenOptions::new().write(true).create(true).truncate(true).open(&v).ok(),
             "--viollog" => viollog = Some(v.clone()),
             "--out" => out = Some(v.clone()),
+            "--repo-src" => repo_src = Some(v.clone()),
             _ => usage(),
         }
         i += 2;
@@ -190,6 +192,20 @@ fn main() {
         "C20" => wl_ctor::run_c20(&mut ctx),
         _ => usage(),
     });
+    // A panic that escaped every rejection scope was raised on a call the monitor presumes valid
+    // (reading back, building a receiver, ...). If its location lies inside toodee's own sources it
+    // is toodee that refused a valid call: a violation, not a harness error. (The converse cannot be
+    // concluded - #[track_caller] reports toodee's Index panics at harness lines - so everything
+    // else stays a harness error and the verdict inconclusive.)
+    let mut crate_panic = false;
+    if let (Err(msg), Some(dir)) = (&r, &repo_src) {
+        let loc = msg.rsplit_once(" @ ").map(|x| x.1).unwrap_or("");
+        if !msg.starts_with("harness:") && loc.starts_with(dir.as_str()) {
+            let file = loc.rsplit('/').next().unwrap_or("").split(':').next().unwrap_or("").to_string();
+            ctx.violation(&format!("uncaught@{}", file), "valid-call-panicked-in-toodee", msg.clone());
+            crate_panic = true;
+        }
+    }
     let s = ctx.summary_json();
     match &out {
         Some(p) => std::fs::write(p, serde_json::to_vec(&s).unwrap()).unwrap(),
@@ -197,6 +213,10 @@ fn main() {
     }
     if let Err(msg) = r {
         // what was observed up to the failing case has been written; the orchestrator resumes after it
+        if crate_panic {
+            eprintln!("TOODEE-PANIC case#{} [{}]: {}", ctx.cur_idx, ctx.cur_desc, msg);
+            std::process::exit(5);
+        }
         eprintln!("HARNESS-PANIC case#{} [{}]: {}", ctx.cur_idx, ctx.cur_desc, msg);
         std::process::exit(3);
     }
